@@ -101,8 +101,28 @@ def gen_ops(rng, n_cg, n_fixed, n_secs):
         auth = rng.choice(["cookie"] * 7 + ["basic", "cert", "ipcert"])
         d = None if rng.random() < 0.06 else (rng.choice(CORPUS) if rng.random() < 0.2 else gen_duration(rng))
         ops.append(("cg", ty, auth, gen_age(rng) if auth in ("cookie", "cert") else 0, rng.choice(["m", "m", "q"]), d))
+    # role-requesting certificates.  A refresh presents an IP-restricted certificate: keymasterd's own never
+    # live longer than 45 days, but one from another CA of the TLS client pool (or minted under the role CA
+    # by other means) may -- whatever is presented, and whatever `duration` the form carries, the answer
+    # must stay within 45 days.  The 90-day certificate of a foreign CA comes first.  (No positive lifetime
+    # below a minute: such a certificate may expire between minting and presenting it.)
+    ROLE_LIFETIMES = [90 * DAY, 5 * 365 * DAY, 45 * DAY + NS, 46 * DAY, 45 * DAY, 44 * DAY, 3600 * NS, 60 * NS, 0, -3600 * NS,
+                      365 * DAY, 100 * 365 * DAY, 45 * DAY - NS, 60 * DAY]
+    ROLE_DURS = [None, None, "2160h", "1h", "-1h", "100000h", "0s", "10X", "1081h"]
+    k = 0
+    for lt in ROLE_LIFETIMES:
+        for ca in ("ext", "role"):
+            ops.append(("role", "refresh", lt, ca, ROLE_DURS[k % len(ROLE_DURS)]))
+            k += 1
+    for d in ROLE_DURS:
+        ops.append(("role", "handler", None, None, d))
     for i in range(n_fixed):
-        ops.append(("role", ["handler", "refresh", "direct"][i % 3]))
+        kind = ["handler", "refresh", "direct"][i % 3]
+        if kind == "refresh":
+            lt = rng.choice(ROLE_LIFETIMES) if rng.random() < 0.4 else (rng.randrange(60 * NS, 400 * DAY) if rng.random() < 0.9 else -rng.randrange(0, DAY))
+            ops.append(("role", kind, lt, rng.choice(["role", "ext"]), rng.choice(ROLE_DURS + [None] * 4)))
+        else:
+            ops.append(("role", kind, None, None, rng.choice(ROLE_DURS + [None] * 8)))
         if i % 2 == 0:
             ops.append(("aws",))
     # the float step uint64(Duration.Seconds())
@@ -128,6 +148,8 @@ def gen_ops(rng, n_cg, n_fixed, n_secs):
 def op_line(o):
     if o[0] == "cg":
         return "cg %s %s %d %s %s" % (o[1], o[2], o[3], o[4], "~" if o[5] is None else c.hexs(o[5]))
+    if o[0] == "role" and len(o) == 5:
+        return "role %s %s %s %s" % (o[1], "-" if o[2] is None else o[2], o[3] or "-", "~" if o[4] is None else c.hexs(o[4]))
     return " ".join(str(x) for x in o)
 
 
@@ -189,8 +211,15 @@ def run(ctx):
             if status == "200":
                 issued.add((o[1], o[2], parsed, o[3]))
         elif o[0] in ("role", "aws"):
-            status, chosen, tb, ta, nb, na = f
-            mops.append(o[0])
+            status, chosen, tb, ta, nb, na = f[:6]
+            if o[0] == "role" and len(f) == 7:
+                # the model is told the lifetime of the certificate that was actually presented
+                mops.append("role %s %s" % (o[1], f[6] if f[6] != "-" else "0"))
+                if o[1] == "refresh":
+                    b = "refresh:presented-" + ("over-45d" if int(f[6]) > 45 * DAY else "non-positive" if int(f[6]) <= 0 else "within-45d")
+                    hist[b] = hist.get(b, 0) + 1
+            else:
+                mops.append(o[0])
             life = str(int(na) - int(nb)) if status == "200" and nb.isdigit() and na.isdigit() else "-"
             canon_impl.append("%s %s %s" % (status, chosen, life))
             jops.append("%s %s %s %s %s %s" % (o[0], tb, ta, status, nb, na))
@@ -252,6 +281,12 @@ def run(ctx):
             elif o[0] == "secs":
                 key = "secs:%d" % o[1]
                 what = "uint64(time.Duration(%d).Seconds()) = %s breaks the float contract assumed by c03_ssh" % (o[1], impl[i])
+            elif o[0] == "role" and len(o) == 5:
+                key = "role:%s:presented=%s:ca=%s:duration=%s" % (o[1], o[2], o[3], json.dumps(o[4]))
+                what = ("POST %s%s%s -> %s [%s]" % (
+                    "/v1/refreshRoleRequestingCert" if o[1] == "refresh" else "/v1/getRoleRequestingCert (%s)" % o[1],
+                    " presenting an IP-restricted certificate valid for %s s issued by %s" % (int(o[2]) // NS, "another client CA" if o[3] == "ext" else "the role CA") if o[1] == "refresh" else "",
+                    " with form duration=%r" % o[4] if o[4] is not None else "", verdicts[i], impl[i]))
             else:
                 key = ":".join(str(x) for x in o)
                 what = "%s -> %s [%s]" % (" ".join(str(x) for x in o), verdicts[i], impl[i])
